@@ -238,7 +238,7 @@ def _raise_src(cond, indent='        '):
     else:
         raise ValueError(cond)
     return [indent + 'if %s:' % test,
-            indent + '    raise %s("constructor of %%s rejects the value" %% type(self).__name__)' % exc]
+            indent + '    raise %s("constructor of %%s rejects the value {0} {x} 100%%%%" %% type(self).__name__)' % exc]
 
 
 def class_src(c, all_specs):
